@@ -6,9 +6,12 @@ from the result, keeping summary / needs_to_manifest and merging seeded/history.
 import json, os, re, subprocess, sys, concurrent.futures as cf
 V = os.path.dirname(os.path.dirname(os.path.abspath(__file__)))
 args = sys.argv[1:]
-jobs = 2
-if args and args[0] == "--jobs":
-    jobs = int(args[1]); args = args[2:]
+jobs = 2; checks_only = False; confirm_only = False
+while args and args[0].startswith("--"):
+    if args[0] == "--jobs": jobs = int(args[1]); args = args[2:]
+    elif args[0] == "--checks-only": checks_only = True; args = args[1:]      # keep the recorded demo / repository-test confirmation
+    elif args[0] == "--confirm-only": confirm_only = True; args = args[1:]    # demo + repository tests only, checks kept as recorded
+    else: sys.exit("unknown option " + args[0])
 hist = json.load(open(os.path.join(V, "seeded", "history.json")))
 names = sorted(d for d in os.listdir(os.path.join(V, "seeded")) if os.path.isdir(os.path.join(V, "seeded", d)))
 if args:
@@ -18,15 +21,19 @@ if args:
 NEIGHBOURS = {"C01": ["C02", "C05"], "C02": ["C01", "C12"], "C03": ["C04", "C05", "C19"], "C04": ["C03"], "C05": ["C01", "C03"], "C06": ["C10", "C12", "C19"], "C07": ["C08", "C09", "C10", "C17"],
               "C08": ["C07", "C17"], "C09": ["C07", "C10", "C20"], "C10": ["C06", "C09", "C17"], "C11": ["C10", "C13"], "C12": ["C06", "C07", "C11"], "C13": ["C11", "C14"], "C14": ["C13", "C17"],
               "C15": ["C16", "C20"], "C16": ["C01", "C15"], "C17": ["C10", "C14"], "C18": ["C01", "C10", "C11"], "C19": ["C06", "C18"], "C20": ["C09", "C15"]}
+HEAD = subprocess.run(["git", "-C", "/repo", "rev-parse", "--short", "HEAD"], capture_output=True, text=True).stdout.strip()
 def one(name):
     d = os.path.join(V, "seeded", name)
     res = "/tmp/seedfinal/" + name
     os.makedirs(res, exist_ok=True)
     old = json.load(open(os.path.join(d, "meta.json")))
     ids = ["all"] if os.environ.get("SEED_ALL_CHECKS") else [old["breaks_property"]] + NEIGHBOURS.get(old["breaks_property"], [])
-    subprocess.run([os.path.join(V, "tools", "eval_seeded.sh"), d, res] + ids, stdout=subprocess.DEVNULL, stderr=subprocess.DEVNULL)
+    if confirm_only: ids = []
+    opts = ["--no-tests", "--no-demo"] if checks_only else []
+    subprocess.run([os.path.join(V, "tools", "eval_seeded.sh"), d, res] + opts + ids, stdout=subprocess.DEVNULL, stderr=subprocess.DEVNULL)
     conf = {"demo_on_changed_tree_exit": None, "demo_on_unchanged_tree_exit": None, "repository_tests_on_changed_tree": None}
-    checks = {}
+    if checks_only: conf = old.get("confirmed_by_me", conf)
+    checks = dict(old.get("checks_quick_tier", {})) if confirm_only else {}
     for l in open(os.path.join(res, "summary.txt")).read().splitlines():
         m = re.match(r"demo on changed tree: exit=(\d+)", l)
         if m: conf["demo_on_changed_tree_exit"] = int(m.group(1))
@@ -41,7 +48,7 @@ def one(name):
     h = hist.get(rnd, {}).get(prop, ["", ""])
     meta = {
         "name": name, "round": int(rnd[1]), "breaks_property": prop, "summary": old["summary"], "needs_to_manifest": old["needs_to_manifest"],
-        "origin": old["origin"], "confirmed_by_me": conf,
+        "origin": old["origin"], "confirmed_by_me": conf, "confirmed_at_repo_head": old.get("confirmed_at_repo_head") if checks_only else HEAD,
         "what_i_ran": "tools/finalize_seeds.py -> tools/eval_seeded.sh <this dir> <result dir> all  (scratch copy of /repo + patch: demo.sh on the changed and on the unchanged tree, tools/run_repo_tests.sh on the changed tree, the quick tier of the target check and of the checks with an adjacent subject (all 20 with SEED_ALL_CHECKS=1) with VERIF_REPO pointing at the copy); the official procedure (git -C /repo apply, run, git -C /repo checkout -- .) gives the same builds because the harness is built from a content hash of the tree",
         "checks_quick_tier": checks,
         "detected_by": sorted(k for k, v in checks.items() if v["exit"] == 1),
